@@ -1679,8 +1679,9 @@ class UTPM(Ring, RawAlgorithmsMixIn):
         du = cls.diag(U)
         su = cls.sign(du)
         au = cls.abs(du)
-        c = cls.piv2det(PIV) * cls.prod(su)
-        return cls.log(c) + cls.sum(cls.log(au))
+        # log|det|, as numpy.linalg.slogdet(x)[1] (the sign of the determinant,
+        # piv2det(PIV) * prod(su) = +-1, contributes log|+-1| = 0)
+        return cls.sum(cls.log(au))
 
 
     @classmethod
@@ -1694,9 +1695,8 @@ class UTPM(Ring, RawAlgorithmsMixIn):
         du = cls.diag(U)
         su = cls.sign(du)
         au = cls.abs(du)
-        c  = cls.piv2det(PIV) * cls.prod(su)
         l  = cls.log(au)
-        y  = cls.log(c) + cls.sum(l)
+        y  = cls.sum(l)
 
         lbar    = cls.pb_sum(ybar, l, y, None, None, None)
         aubar   = cls.pb_log(lbar, au, l)
